@@ -88,6 +88,7 @@ def run(ctx):
     f_poi = repo.func('matcher._parse_obj_id_matcher')
     gen_calls = sorted({g.short for f, n in named_call_sites(repo, '_parse_generation_matcher') for g in effective_funcs(repo, f)})
     ok14 = callers == ['_parse_generation_matcher'] and gen_calls == ['_parse_obj_id_matcher']
+    shape14 = ok14      # the call structure the condition is stated over; when it is gone the clause is undecided, not violated
     if ok14:
         ok14 = False
         for p in paths_of(repo, f_poi, while_unroll=1):
@@ -100,12 +101,10 @@ def run(ctx):
     if ok14:
         # the cut is placed before the maximal run of trailing letters, and only ASCII letters count as letters
         from .c14 import letter_cut
-        try:
-            cut = letter_cut(repo)
-            ok14 = all(chr(ch).isascii() and chr(ch).isalpha() for ch in cut['accepted'])      # whatever is cut off as letters consists of ASCII letters
-        except AnalysisError:
-            ok14 = False
-    cond['c14'] = ok14
+        # (a cut written in a form that cannot be decided makes this clause undecided - AnalysisError propagates -, not false)
+        cut = letter_cut(repo)
+        ok14 = all(chr(ch).isascii() and chr(ch).isalpha() for ch in cut['accepted'])      # whatever is cut off as letters consists of ASCII letters
+    cond['c14'] = ok14 if shape14 else None
     f_so = repo.func('matcher._split_on')
     # decided on the paths of _split_on (two characters deep): every call of _find_closing_brace(T, K) happens after the decision
     # `T[K] in _brace_pairs` was taken as true on that path - with that very text and position
@@ -152,6 +151,9 @@ def run(ctx):
             if tag is None or cond.get(tag):
                 ctx.ok(rule, rs.func.loc(rs.node), 'triaged:%s:%s' % (rs.func.qual, rs.exc), 'accepted: ' + reason)
                 return
+            if tag in cond and cond[tag] is None:
+                raise AnalysisError('%s: cannot decide whether %s (%s) can escape %s: the code the accepted reason speaks about is written differently now (%s)'
+                                    % (rule, rs.exc, rs.text[:40], root.short, reason[:80]))
             ctx.violation(rule, 'escape:%s:%s' % (rs.func.qual, rs.exc), rs.func.loc(rs.node),
                           '%s (%s) can escape %s; its triage condition no longer holds: %s' % (rs.exc, rs.text[:60], root.short, reason))
             return
